@@ -806,8 +806,9 @@ impl Fiber {
       .expect("Unable to write to stderr");
     }
 
-    let message = error[0].to_obj().to_str();
-    writeln!(log, "{}: {}", &*error.class().name(), &*message).expect("Unable to write to stderr");
+    // the message field can hold any value, a subclass may never have set it
+    let message = error[0];
+    writeln!(log, "{}: {}", &*error.class().name(), message).expect("Unable to write to stderr");
   }
 
   /// Get a value on the stack
